@@ -42,6 +42,8 @@ def case_st(draw):
     ndims = draw(st.sampled_from([(3,), (3,), (3,), (1, 2)]))
     case = draw(rc.output_cases(ndims=ndims, min_cpu=2, max_cpu=9, with_part=False, with_sink=False, min_levels=1))
     case["ordering"] = draw(st.sampled_from(["hilbert", "hilbert", "hilbert", "planar"]))
+    if case["ordering"] == "planar":
+        case["owner_by_key"] = False        # a non-Hilbert decomposition: ownership unrelated to the Hilbert keys
     case["key_mode"] = draw(st.sampled_from(["uniform", "random", "random", "tail", "head", "clustered", "cube", "tail"]))
     case["max_cells"] = 2000
     case["use_minus1"] = False
@@ -68,7 +70,7 @@ def case_st(draw):
     elif regime == "deep" and case["ndim"] == 3:
         # levels beyond 14, the deepest cells hugging a coarse cube boundary from below
         case["levelmin"] = draw(st.sampled_from([2, 3]))
-        case["levelmax"] = draw(st.integers(15, 17))
+        case["levelmax"] = draw(st.sampled_from([15, 16, 17, 19, 20]))
         case["refine_p"] = [0.0]
         case["deep_toward"] = [draw(st.sampled_from([0.25, 0.5, 0.75])) for _ in range(3)]
         case["ncpu"] = draw(st.integers(3, 9))
@@ -81,8 +83,11 @@ def case_st(draw):
         if p["pos"]["form"] == "leaf" and draw(st.integers(0, 9)) < 8:
             p["pos"]["axes"] = "xyz"[: case["ndim"]]
             p["pos"]["shift"] = (p["pos"]["shift"] + [0.1, -0.2, 0.3])[: case["ndim"]]
+        value_vars = list(case["hydro_vars"]) + (["grav_potential"] if case.get("grav") else []) + list(case.get("rt_vars") or [])
         if draw(st.integers(0, 3)) == 0:
-            p["val"] = draw(rs.value_preds([v for v in case["hydro_vars"]]))
+            p["val"] = draw(rs.value_preds(value_vars))
+            if draw(st.integers(0, 2)) == 0:
+                p.pop("pos")            # a value predicate alone: no bounding box, every file must be read
         preds.append(p)
     case["preds"] = preds
     return case
@@ -103,8 +108,10 @@ def selective(case, r):
             all_axes = len(res["pos"]) == ndim
             widths = [hi - lo for lo, hi in res["pos"].values()]
             leaf = res.get("leaf")
-            if leaf and all_axes and max(widths) <= 0.5 ** leaf["level"]:
-                r.label("box_le_leaf")
+            if leaf and all_axes and max(widths) <= 0.5 ** leaf["level"] and bool(keep[leaf["index"]]):
+                r.label("box_le_leaf")          # a box inside one leaf that selects that leaf
+            if not res["pos"]:
+                r.label("value_predicate_alone")
             if any(lo < 0 or hi > 1 for lo, hi in res["pos"].values()):
                 r.label("touches_edge")
             try:
@@ -158,6 +165,12 @@ def cpu_case_st(draw):
         lst = draw(st.lists(st.integers(1, case["ncpu"]), min_size=1, max_size=case["ncpu"], unique=True))
         lists.append(lst)
     case["cpu_lists"] = lists
+    # half of the lists are combined with a selection (the user's list must win over the automatic one)
+    case["cpu_preds"] = [({"pos": draw(rs.pos_preds(case["ndim"], case["levelmax"], around_leaf="leaf"))}
+                          if draw(st.booleans()) else None) for _ in lists]
+    for p in case["cpu_preds"]:
+        if p:
+            p["pos"]["rel"] = max(p["pos"]["rel"], 1.5)
     return case
 
 
@@ -165,14 +178,20 @@ def cpu_list(case, r):
     m, path, nout = rc.write_case(case, with_decoys=False)
     try:
         exp_all = rm.expected_mesh(m)
-        for lst in case["cpu_lists"]:
+        for lst, pred in zip(case["cpu_lists"], case.get("cpu_preds") or [None] * len(case["cpu_lists"])):
             keep = np.isin(exp_all["cpu"], lst)
+            kwargs = {}
+            if pred:
+                res = rs.resolve(pred, m, exp_all)
+                keep = keep & rs.mask(res, m, exp_all)
+                kwargs["select"] = {"mesh": rs.build_select(osyris, res, m)}
+                r.label("cpu_list_with_select")
             exp = rs.filter_exp(exp_all, keep)
             r.nontrivial(len(lst) < m.ncpu)
             if lst != sorted(lst):
                 r.label("permuted")
             try:
-                ds, out = rc.quiet_load(osyris, nout, path, cpu_list=list(lst))
+                ds, out = rc.quiet_load(osyris, nout, path, cpu_list=list(lst), **kwargs)
             except Exception as e:
                 if keep.sum() == 0:
                     continue
@@ -250,6 +269,7 @@ def subs(ctx):
         Sub("curve", curve, cases=_curve_cases(thorough), shard=False),
         Sub("hilbert_diff", hilbert_diff, strategy=hilbert_pt_st, quick=400, thorough=3000),
         Sub("selective", selective, strategy=case_st(), quick=110, thorough=400,
-            required={"restricted_with_rows": 0.06, "box_le_leaf": 0.1, "touches_edge": 0.03}),
-        Sub("cpu_list", cpu_list, strategy=cpu_case_st(), quick=40, thorough=200),
+            required={"restricted_with_rows": 0.06, "box_le_leaf": 0.1, "touches_edge": 0.03, "ordering_planar": 0.1,
+                      "value_predicate_alone": 0.05}),
+        Sub("cpu_list", cpu_list, strategy=cpu_case_st(), quick=40, thorough=200, required={"cpu_list_with_select": 0.3}),
     ]
